@@ -11,6 +11,7 @@ import (
 	"net"
 	"sync"
 	"sync/atomic"
+	"time"
 )
 
 // ErrCut is what a server-side Write returns once the harness has cut the transport.
@@ -29,6 +30,27 @@ type FConn struct {
 	writeFailed    atomic.Bool
 	inWrite        atomic.Int32
 	closeOnce      sync.Once
+	wdl            time.Time // write deadline (honoured by a stalled write)
+}
+
+type timeoutErr struct{}
+
+func (timeoutErr) Error() string   { return "i/o timeout (write deadline exceeded on a stalled connection)" }
+func (timeoutErr) Timeout() bool   { return true }
+func (timeoutErr) Temporary() bool { return true }
+
+func (c *FConn) SetWriteDeadline(t time.Time) error {
+	c.mu.Lock()
+	c.wdl = t
+	c.mu.Unlock()
+	return c.Conn.SetWriteDeadline(t)
+}
+
+func (c *FConn) SetDeadline(t time.Time) error {
+	c.mu.Lock()
+	c.wdl = t
+	c.mu.Unlock()
+	return c.Conn.SetDeadline(t)
 }
 
 func (c *FConn) Write(p []byte) (int, error) {
@@ -36,9 +58,21 @@ func (c *FConn) Write(p []byte) (int, error) {
 	defer c.inWrite.Add(-1)
 	c.mu.Lock()
 	st := c.stall
+	dl := c.wdl
 	c.mu.Unlock()
 	if st != nil {
-		<-st
+		if dl.IsZero() {
+			<-st
+		} else {
+			t := time.NewTimer(time.Until(dl))
+			select {
+			case <-st:
+				t.Stop()
+			case <-t.C:
+				c.writeFailed.Store(true)
+				return 0, timeoutErr{}
+			}
+		}
 	}
 	c.mu.Lock()
 	if c.budget >= 0 {
@@ -58,6 +92,9 @@ func (c *FConn) Write(p []byte) (int, error) {
 	c.mu.Unlock()
 	n, err := c.Conn.Write(p)
 	c.written.Add(int64(n))
+	if err != nil {
+		c.writeFailed.Store(true)
+	}
 	return n, err
 }
 
